@@ -207,10 +207,29 @@ var $schedule = goroutine => {
         $awakeGoroutines++;
     }
     $scheduled.push(goroutine);
-    if ($curGoroutine === $noGoroutine) {
+    if ($curGoroutine === $noGoroutine && !$wakeupsDeferred) {
         $runScheduled();
     }
 };
+
+// A channel operation performed outside of a goroutine (by a JavaScript callback or a timer) must finish
+// updating the channel before any goroutine it wakes up gets to run; otherwise that goroutine would
+// observe the channel in an intermediate state (e.g. closed, but with senders still queued).
+var $wakeupsDeferred = false;
+var $deferWakeups = op => (chan => {
+    if ($curGoroutine !== $noGoroutine || $wakeupsDeferred) {
+        return op(chan);
+    }
+    $wakeupsDeferred = true;
+    try {
+        return op(chan);
+    } finally {
+        $wakeupsDeferred = false;
+        if ($scheduled.length !== 0) {
+            $runScheduled();
+        }
+    }
+});
 
 var $setTimeout = (f, t) => {
     $awakeGoroutines++;
@@ -287,6 +306,7 @@ var $recv = chan => {
     chan.$recvQueue.push(queueEntry);
     return f;
 };
+$recv = $deferWakeups($recv);
 var $close = chan => {
     if (chan === $chanNil) {
         $throwRuntimeError("close of nil channel");
@@ -310,6 +330,7 @@ var $close = chan => {
         queuedRecv([chan.$elem.zero(), false]);
     }
 };
+$close = $deferWakeups($close);
 var $select = comms => {
     var ready = [];
     var selection = -1;
